@@ -76,8 +76,26 @@ ENI = {'_require_safe', '_patch_access_to_globals', 'evaluate_node', 'get_eval_s
 WNAME = 'EvalNode._globals_wrapper_name'
 
 
+def exotic_eval_shape(fi):
+    """constructs in EvalNode.on_evaluate_impl that the trace rules cannot read reliably (the rules then give no verdict instead of
+    guessing): star-unpacking assignments, the two code objects produced through map(...), the namespace handed out by a helper as
+    part of a tuple, vars(module) instead of module.__dict__"""
+    for n in ast.walk(fi.node):
+        if isinstance(n, ast.Assign) and any(isinstance(x, ast.Starred) for t in n.targets for x in ast.walk(t)):
+            return 'star-unpacking assignment `%s`' % norm(n)[:60]
+        if isinstance(n, ast.Call) and isinstance(n.func, ast.Name) and n.func.id in ('map', 'vars', 'starmap'):
+            return '%s(...) call `%s`' % (n.func.id, norm(n)[:60])
+        if isinstance(n, ast.Assign) and isinstance(n.targets[0], ast.Tuple) and isinstance(n.value, ast.Call) and isinstance(n.value.func, ast.Name) \
+                and n.value.func.id in fi.module.functions and any(isinstance(x, ast.Name) and x.id in ('gbls', 'namespace', 'globals_') for x in n.targets[0].elts):
+            return 'namespace handed out by a helper `%s`' % norm(n)[:60]
+    return None
+
+
 def _eval_paths(repo, exc=False):
     fi = repo.func('EvalNode.ayns.on_evaluate_impl')
+    why = exotic_eval_shape(fi)
+    if why:
+        raise AnalysisError('EvalNode.on_evaluate_impl: %s - shape not recognised by the trace rules' % why)
     return fi, tr.paths_of(repo, fi, no_inline=ENI, follow_exceptions=exc)
 
 
